@@ -1,8 +1,8 @@
 (* Url: formatQueryUrl + joinContextAndResourcePath (v2/restli/http.go:75-132; restli/http.go of the root module is the
    same code) and the URL part of newRequest (http.go:171, :201), transcribed over UrlModel.  No proofs here. *)
-From Coq Require Import List Bool Arith NArith Lia.
+From Coq Require Import List Bool Arith NArith ZArith Lia.
 From Coq.Strings Require Import Byte.
-From GR Require Import Base.Bytes Http.UrlModel.
+From GR Require Import Base.Bytes Gen.TablesTunnel Http.UrlModel.
 Import ListNotations.
 
 (* http.go:119-132 joinContextAndResourcePath(hostUrl, escapedContextPath, u) *)
@@ -55,6 +55,39 @@ Definition new_request_url (host_url : URL) (root rpath : bytes) (query : option
              | UOk s => request_url_of_string s
              end
   end.
+
+(* http.go:191-199, the URL part of the tunnelling branch: when the threshold test (transcribed by the translator into
+   Gen/TablesTunnel.v, one definition per module generation) holds of len(u.RawQuery), the query travels in the body
+   (C14) and the request goes to the same URL with `u.RawQuery = ""` (:198) - every other field, RawPath and ForceQuery
+   included, is kept. *)
+Definition tunnel_test (v2 : bool) : Z -> Z -> bool := if v2 then tunnel_condition else tunnel_condition_root.
+
+Definition tunnel_url (v2 : bool) (threshold : Z) (u : URL) : URL :=
+  if tunnel_test v2 threshold (Z.of_nat (length (u_rawquery u)))
+  then {| u_scheme := u_scheme u; u_host := u_host u; u_path := u_path u; u_rawpath := u_rawpath u;
+          u_forcequery := u_forcequery u; u_rawquery := []; u_omithost := u_omithost u |}
+  else u.
+
+(* http.go:171-201 for a client with QueryTunnellingThreshold = threshold: the URL of the *http.Request *)
+Definition new_request_url_t (v2 : bool) (threshold : Z) (host_url : URL) (root rpath : bytes) (query : option bytes) : ures URL :=
+  match format_query_url host_url root rpath query with
+  | UErr e => UErr e
+  | UOk u => match url_string (tunnel_url v2 threshold u) with
+             | UErr e => UErr e
+             | UOk s => request_url_of_string s
+             end
+  end.
+
+(* ---- a long-lived client.  newRequest / formatQueryUrl read two things of the *Client: its QueryTunnellingThreshold and
+   its HostnameResolver (whose answer for this request is r_base); they write nothing.  The client of the model therefore
+   is its configuration, and the URLs of a HISTORY of requests are the URLs of the single requests. *)
+Record request := { r_base : URL; r_root : bytes; r_rpath : bytes; r_query : option bytes }.
+
+Definition request_url (v2 : bool) (threshold : Z) (r : request) : ures URL :=
+  new_request_url_t v2 threshold (r_base r) (r_root r) (r_rpath r) (r_query r).
+
+Definition client_urls (v2 : bool) (threshold : Z) (history : list request) : list (ures URL) :=
+  map (request_url v2 threshold) history.
 
 (* ---- inputs of the property *)
 
@@ -136,3 +169,7 @@ Definition valid_query (q : option bytes) : bool := match q with Some s => foral
 
 Definition raw_query_of (q : option bytes) : bytes := match q with Some s => s | None => [] end.
 Definition force_query_of (q : option bytes) : bool := match q with Some [] => true | _ => false end.
+
+(* the request is tunnelled: the threshold test of the module generation holds of the length of the encoder's query *)
+Definition tunnels (v2 : bool) (threshold : Z) (q : option bytes) : bool :=
+  tunnel_test v2 threshold (Z.of_nat (length (raw_query_of q))).
